@@ -454,6 +454,11 @@ fn gen_inputs(family: &str, rng: &mut Rng, n: usize, seeds: &[String]) -> Vec<St
                 v.push(token_pairs(rng));
             }
         }
+        "pairs_enum" => {
+            for i in 0..n {
+                v.push(token_pairs_enum(i));
+            }
+        }
         "soup_enum" => {
             for i in 0..n {
                 v.push(soup_enum(i));
